@@ -1,5 +1,6 @@
 use crate::diagnostic_emitter::MosResult;
 use crate::impl_request_handler;
+use crate::lsp::DocumentPath;
 use crate::lsp::{to_location, to_range, LspContext, RequestHandler};
 use itertools::Itertools;
 use lsp_types::request::{DocumentHighlightRequest, GotoDefinition, References};
@@ -37,8 +38,7 @@ impl RequestHandler<GotoDefinition> for GoToDefinitionHandler {
                     .text_document_position_params
                     .text_document
                     .uri
-                    .to_file_path()
-                    .unwrap();
+                    .document_path();
                 let origin = def.try_get_usage_containing(
                     tree,
                     &path,
@@ -77,12 +77,10 @@ impl RequestHandler<References> for FindReferencesHandler {
             .text_document_position
             .text_document
             .uri
-            .to_file_path()
-            .unwrap();
+            .document_path();
         let line_col = ctx.to_line_col(&path, &params.text_document_position.position);
-        let defs = analysis.find_filter(path, line_col, |ty| {
-            matches!(ty, DefinitionType::Symbol(_))
-        });
+        let defs =
+            analysis.find_filter(path, line_col, |ty| matches!(ty, DefinitionType::Symbol(_)));
 
         let locations = defs
             .into_iter()
